@@ -107,10 +107,7 @@ func (v *StructSchema) process(ctx *p.SchemaCtx) {
 	for key, processor := range v.schema {
 		originalKey := key
 		if key[0] >= 'a' && key[0] <= 'z' {
-			var b [32]byte // Use a size that fits your max key length
-			copy(b[:], key)
-			b[0] -= 32
-			key = string(b[:len(key)])
+			key = string(key[0]-32) + key[1:]
 		}
 
 		fieldMeta, ok := structVal.Type().FieldByName(key)
@@ -186,10 +183,7 @@ func (v *StructSchema) validate(ctx *p.SchemaCtx) {
 	for key, schema := range v.schema {
 		fieldKey := key
 		if key[0] >= 'a' && key[0] <= 'z' {
-			var b [32]byte // Use a size that fits your max key length
-			copy(b[:], key)
-			b[0] -= 32
-			key = string(b[:len(key)])
+			key = string(key[0]-32) + key[1:]
 		}
 
 		fieldMeta, ok := refVal.Type().FieldByName(key)
